@@ -339,6 +339,9 @@ pub fn h_clean_helper() {
     set_slot(1, 0, 0);
     let owner = any_below(2) as usize;
     let target = any_below(2) as usize;
+    if any_below(2) == 1 {
+        set_slot(target, 1, target); // keeps the target's count positive while its neighbour is being destroyed
+    }
     if let (Some(h), Some(t)) = (handle(2), handle(target)) {
         *h.wslot() = Some(t.downgrade());
         w().wedge[2] = target as u8;
